@@ -39,6 +39,10 @@ var importMap = map[string][2]string{
 var NetFiles = map[string]bool{
 	"proc/internal/net/conn.go": true,
 	"proc/tcp/proc.go":          true, // type assertions on *net.TCPConn (socket options)
+	// the health-check protocol checkers dial the backends themselves
+	"proc/internal/hc/atcp/checker.go":  true,
+	"proc/internal/hc/redis/checker.go": true,
+	"proc/internal/hc/mysql/checker.go": true,
 }
 
 // RacyFields lists struct fields ("Type.field") that the code reads and writes without synchronisation on
@@ -442,15 +446,30 @@ func (r *rewriter) run() ([]byte, error) {
 				r.fail(n, "send statement in this position is not supported")
 				return false
 			}
-			if pureExpr(n.Chan) {
-				c.Replace(&ast.BlockStmt{List: []ast.Stmt{&ast.ExprStmt{X: call(schedSel("SendPt"), n.Chan)}, &ast.SendStmt{Chan: n.Chan, Value: n.Value}, &ast.ExprStmt{X: call(schedSel("PostSend"))}}})
-			} else {
-				cv := ast.NewIdent(r.name("c"))
-				c.Replace(&ast.BlockStmt{List: []ast.Stmt{
-					&ast.AssignStmt{Lhs: []ast.Expr{cv}, Tok: token.DEFINE, Rhs: []ast.Expr{n.Chan}},
-					&ast.ExprStmt{X: call(schedSel("SendPt"), cv)},
-					&ast.SendStmt{Chan: cv, Value: n.Value},
-					&ast.ExprStmt{X: call(schedSel("PostSend"))}}})
+			{
+				// Go evaluates the channel and the value before the send can block: hoist both in front of the
+				// scheduling point (a value expression with scheduling points of its own must not run after it)
+				var list []ast.Stmt
+				var chv ast.Expr = n.Chan
+				if !pureExpr(n.Chan) {
+					cv := ast.NewIdent(r.name("c"))
+					list = append(list, &ast.AssignStmt{Lhs: []ast.Expr{cv}, Tok: token.DEFINE, Rhs: []ast.Expr{n.Chan}})
+					chv = cv
+				}
+				var val ast.Expr = n.Value
+				if !r.isConstOrNil(n.Value) && !pureExpr(n.Value) {
+					sv := ast.NewIdent(r.name("s"))
+					list = append(list, &ast.AssignStmt{Lhs: []ast.Expr{sv}, Tok: token.DEFINE, Rhs: []ast.Expr{n.Value}})
+					val = sv
+				}
+				tok := ast.NewIdent(r.name("t"))
+				send := &ast.SendStmt{Chan: chv, Value: val}
+				r.skip[send] = true
+				list = append(list,
+					&ast.AssignStmt{Lhs: []ast.Expr{tok}, Tok: token.DEFINE, Rhs: []ast.Expr{call(schedSel("SendPt"), chv)}},
+					send,
+					&ast.ExprStmt{X: call(schedSel("PostSendT"), tok)})
+				c.Replace(&ast.BlockStmt{List: list})
 			}
 		case *ast.UnaryExpr:
 			if n.Op != token.ARROW || r.skip[n] {
@@ -716,6 +735,10 @@ func (r *rewriter) rewriteSelect(n *ast.SelectStmt, c *astutil.Cursor) {
 	def := ast.NewIdent("false")
 	if hasDefault {
 		def = ast.NewIdent("true")
+	} else {
+		// Select only returns -1 for a select with a default arm; the extra clause keeps a select that ends a
+		// function a terminating statement
+		clauses = append(clauses, &ast.CaseClause{List: nil, Body: []ast.Stmt{&ast.ExprStmt{X: call(ast.NewIdent("panic"), &ast.BasicLit{Kind: token.STRING, Value: strconv.Quote("verif: select without a ready arm")})}}})
 	}
 	sw := &ast.SwitchStmt{
 		Tag:  call(schedSel("Select"), append([]ast.Expr{def}, cases...)...),
